@@ -57,13 +57,81 @@ pub fn composite_strategy(tier: Tier) -> BoxedStrategy<crate::checks::composite:
         vec(any::<u16>(), 0..=3),
         prop_oneof![1 => Just(0u8), 1 => 1u8..=255],
         prop_oneof![1 => Just(vec![]), 1 => vec((0u8..4, any::<u8>()), 1..=3)],
+        prop_oneof![2 => Just(vec![]), 1 => vec((0u8..3, any::<u16>()), 1..=4)],
     )
-        .prop_map(|(mut comps, order_keys, apx, queried, enc_pick, dup, hub, closed)| {
+        .prop_map(|(mut comps, order_keys, apx, queried, enc_pick, dup, mut hub, closed, gate)| {
             // with closed-form components (up to 60 arguments each) fewer small ones keep the total moderate
             if !closed.is_empty() {
                 comps.truncate(12);
             }
-            crate::checks::composite::CompositeCase { comps, order_keys, apx, queried, enc_pick, dup, hub, closed }
+            if !gate.is_empty() {
+                // one connected component through the gate argument: few components, or the enumerations
+                // over the product extensions are legitimately long
+                hub = 0;
+                comps.truncate(9);
+            }
+            crate::checks::composite::CompositeCase { comps, order_keys, apx, queried, enc_pick, dup, hub, closed, gate }
+        })
+        .boxed()
+}
+
+/// Gated composites in which the gate argument belongs to very few of the product extensions: the
+/// enumerating procedures have to walk through (nearly) all of them before they can answer.
+pub fn gated_rare_strategy(tier: Tier) -> BoxedStrategy<crate::checks::composite::CompositeCase> {
+    use proptest::collection::vec;
+    let gate = prop_oneof![3 => vec((1u8..3, any::<u16>()), 1), 2 => vec((1u8..3, any::<u16>()), 2..=4)];
+    (composite_strategy(tier), gate, 4usize..=10).prop_map(|(mut c, gate, k)| {
+        c.hub = 0;
+        c.gate = gate;
+        // a component whose extensions attack nothing (a lone argument) would keep the gate argument out for good
+        c.comps.retain(|g| g.n >= 2);
+        c.comps.truncate(k);
+        c.closed.truncate(1);
+        for cl in c.closed.iter_mut() {
+            if cl.0 % 4 == 1 {
+                cl.0 = 0;
+            }
+        }
+        c
+    })
+    .boxed()
+}
+
+/// Gated composites made of 5-9 tiny components with several extensions each (mutual attacks, triangles,
+/// 3-cycles): one connected component of 11-30 arguments with hundreds to thousands of extensions, i.e.
+/// far more candidate sets per argument than random graphs have.
+pub fn gated_dense_strategy(_tier: Tier) -> BoxedStrategy<crate::checks::composite::CompositeCase> {
+    use proptest::collection::vec;
+    let motif = prop_oneof![
+        3 => Just(AbsGraph { n: 2, att: vec![(0, 1), (1, 0)] }),
+        3 => Just(AbsGraph { n: 3, att: vec![(0, 1), (1, 2), (2, 0)] }),
+        3 => Just(AbsGraph { n: 3, att: vec![(0, 1), (1, 0), (1, 2), (2, 1), (0, 2), (2, 0)] }),
+        1 => Just(AbsGraph { n: 3, att: vec![(0, 1), (1, 0), (1, 2)] }),
+        1 => Just(AbsGraph { n: 4, att: vec![(0, 1), (1, 0), (2, 3), (3, 2), (1, 2)] }),
+        2 => gen::graph_single(3).prop_filter("two arguments at least", |g| g.n >= 2),
+    ];
+    // components without stable extension have several maximal ranges, not only several extensions:
+    // half of the cases are made of those only
+    let rangeful = prop_oneof![
+        6 => Just(AbsGraph { n: 3, att: vec![(0, 1), (1, 2), (2, 0)] }),
+        1 => Just(AbsGraph { n: 5, att: vec![(0, 1), (1, 2), (2, 3), (3, 4), (4, 0)] }),
+        1 => Just(AbsGraph { n: 4, att: vec![(0, 1), (1, 2), (2, 0), (2, 3)] }),
+        1 => Just(AbsGraph { n: 3, att: vec![(0, 1), (1, 2), (2, 0), (0, 2)] }),
+        1 => Just(AbsGraph { n: 2, att: vec![(0, 0), (0, 1), (1, 0)] }),
+    ];
+    let comps = prop_oneof![1 => vec(motif, 5..=9), 1 => vec(rangeful, 4..=7)];
+    let gate = prop_oneof![3 => vec((1u8..3, any::<u16>()), 1), 1 => vec((1u8..3, any::<u16>()), 2..=4)];
+    (comps, gate, vec(any::<u16>(), 32), any::<bool>(), vec(any::<u16>(), 1..=3), any::<u8>(), vec(any::<u16>(), 0..=2))
+        .prop_map(|(comps, gate, order_keys, apx, queried, enc_pick, dup)| crate::checks::composite::CompositeCase {
+            comps,
+            order_keys,
+            apx,
+            queried,
+            enc_pick,
+            dup,
+            hub: 0,
+            closed: vec![],
+            gate,
         })
         .boxed()
 }
@@ -491,17 +559,23 @@ impl Prop for Statics {
                     .prop_map(|(g, pres)| StaticCase::Small(GraphCase { g, pres }));
                 let big = crate::checks::metamorphic::meta_strategy(tier).prop_map(StaticCase::Big);
                 let composite = composite_strategy(tier).prop_map(StaticCase::Composite);
-                prop_oneof![120 => small, 2 => big, 1 => composite].boxed()
+                let gated = gated_rare_strategy(tier).prop_map(StaticCase::Composite);
+                let dense = gated_dense_strategy(tier).prop_map(StaticCase::Composite);
+                prop_oneof![120 => small, 2 => big, 1 => composite, 1 => gated, 2 => dense].boxed()
             }
             Which::C01 => prop_oneof![
                 1600 => gen::graph_case(nmax).prop_map(StaticCase::Small),
                 4 => composite_strategy(tier).prop_map(StaticCase::Composite),
+                4 => gated_rare_strategy(tier).prop_map(StaticCase::Composite),
+                8 => gated_dense_strategy(tier).prop_map(StaticCase::Composite),
                 1 => crate::checks::hugefan::strategy().prop_map(StaticCase::HugeFan),
             ]
             .boxed(),
             _ => prop_oneof![
                 400 => gen::graph_case(nmax).prop_map(StaticCase::Small),
                 4 => composite_strategy(tier).prop_map(StaticCase::Composite),
+                4 => gated_rare_strategy(tier).prop_map(StaticCase::Composite),
+                8 => gated_dense_strategy(tier).prop_map(StaticCase::Composite),
                 1 => crate::checks::hugefan::strategy().prop_map(StaticCase::HugeFan),
             ]
             .boxed(),
